@@ -1256,7 +1256,9 @@ def _rolling_sum_or_mean_1d(
 
             if group_non_null[key] >= min_periods:
                 if want_mean:
-                    out[i] = group_sums[key] / group_non_null[key]
+                    # min_periods=0: the mean of a window without values stays null
+                    if group_non_null[key] > 0:
+                        out[i] = group_sums[key] / group_non_null[key]
                 else:
                     out[i] = group_sums[key]
 
